@@ -47,7 +47,7 @@ RULE = ('api strata: (host column from a 43-entry dtype grid: bool, 8 int, 3 flo
         'without NaT, object) x (one element from a 57-element grid incl. NaN None NaT 2**53+1 2**63 2**64 long strings tuples NumPy scalars date/datetime/timedelta) '
         'or x (another column of the grid), through 11 Series/Index element operations, 10 Series array operations, 11 Frame element operations and 14 Frame array '
         'operations, the Frame ones under EVERY block layout (zoo.layouts_for); iterable constructors on all pairs and a lattice of triples of a 37-element grid. '
-        'quick tier: a seeded sample of each space plus one fixed witness per known finding; thorough tier: the complete product for the first operation of each family, the other operations and the Frame strata on a 20-dtype grid (x 16 elements for the Frame element operations) under every layout. '
+        'quick tier: a seeded sample of each space plus one fixed witness per known finding; thorough tier: the complete product for every Series/Index operation, the Frame strata on a 21-dtype grid (x 16 elements for the Frame element operations) under every layout (every other layout for the block-insensitive operations). '
         'kernel strata: util.resolve_dtype on all 47x47 ordered dtype pairs against the regenerated Gallina function and the typed model, np.result_type against the '
         'oracle (562 pairs), dtype_from_element, dtype_to_fill_value, dtype_kind_to_na, random dtype lists through resolve_dtype_iter/concat_resolved, random element '
         'lists through prepare_iter_for_array. An operation that raises stores nothing (counted, trivial). A case is non-trivial when two different dtypes really meet; '
@@ -666,7 +666,7 @@ def series_elem_cases(ctx):
     core_pairs = [(hd, fv) for hd in HOSTS_FRAME for fv in FILLS]
     for k, op in enumerate(SERIES_ELEM_OPS):
         if ctx.tier == 'thorough':
-            sel = pairs if k == 0 else core_pairs
+            sel = pairs
         else:
             sel = ctx.rng.sample(pairs, min(len(pairs), ctx.n(450 if k == 0 else 35, 0)))
         for hd, fv in sel:
@@ -791,7 +791,7 @@ def series_arr_cases(ctx):
     pairs = [(hd, od) for hd in HOSTS for od in HOSTS]
     core_pairs = [(hd, od) for hd in HOSTS_FRAME for od in HOSTS_FRAME]
     for k, op in enumerate(SERIES_ARR_OPS):
-        sel = (pairs if k == 0 else core_pairs) if ctx.tier == 'thorough' else ctx.rng.sample(pairs, min(len(pairs), ctx.n(350 if k == 0 else 35, 0)))
+        sel = pairs if ctx.tier == 'thorough' else ctx.rng.sample(pairs, min(len(pairs), ctx.n(350 if k == 0 else 35, 0)))
         for hd, od in sel:
             c = arr_case(ctx, 'api:series-array', op, hd, od)
             if c is not None:
@@ -965,6 +965,7 @@ def fop_assign_bloc(a, fv, layout):
 FRAME_ELEM_OPS = [fop_reindex_rows, fop_reindex_cols, fop_reindex_both, fop_shift_rows, fop_shift_cols, fop_fillna, fop_fillna_trailing,
                   fop_assign_elem, fop_assign_col_elem, fop_assign_row_elem, fop_assign_bloc]
 TUPLE_OK |= {'fop_reindex_rows', 'fop_reindex_cols', 'fop_reindex_both', 'fop_shift_rows'}
+LAYOUT_SENSITIVE = (fop_fillna, fop_fillna_trailing, fop_assign_elem, fop_assign_bloc, fop_reindex_rows)
 
 
 def frame_elem_case(ctx, op, hd, fv, layout):
@@ -995,7 +996,10 @@ def frame_elem_cases(ctx):
     for op in FRAME_ELEM_OPS:
         sel = full if ctx.tier == 'thorough' else ctx.rng.sample(pairs, min(len(pairs), ctx.n(8, 0)))
         for hd, fv in sel:
-            for layout in layouts3(host(hd)):
+            layouts = layouts3(host(hd))
+            if ctx.tier == 'thorough' and op not in LAYOUT_SENSITIVE:
+                layouts = layouts[::2]       # the block-insensitive operations: every other layout in the complete product
+            for layout in layouts:
                 c = frame_elem_case(ctx, op, hd, fv, layout)
                 if c is not None:
                     yield c
